@@ -24,7 +24,7 @@ CHECK = {
                     "capture files arrive in the capture directory only when they are imported (builder.New replays files already present)",
                     "intermediate states are compared with a one-shot import of the same files, not with hand-written truth"],
     "campaigns": [
-        {"test": "TestVerifC05", "checks": {"quick": 2500, "thorough": 150000}, "shrinktime": "25s"},
+        {"test": "TestVerifC05", "checks": {"quick": 2500, "thorough": 120000}, "shrinktime": "25s"},
         {"test": "TestVerifC05Fixed", "fixed": True, "checks": {"quick": 1, "thorough": 1}},
     ],
     "nontrivial_floor": 0.03,
